@@ -19,7 +19,7 @@ from concurrent.futures import ProcessPoolExecutor
 
 import numpy as np
 
-from .. import stages
+from .. import costparams, stages
 from ..common import Check, sha
 from ..costs_oracle import SINGULAR, close, cost_kinds, stat_at
 from ..tlc import Workdir
@@ -244,6 +244,7 @@ def run(tier: str) -> int:
                        "property statement)", "comparison tolerance 1e-9 relative: far above prefix-sum rounding on the "
                        "lattice, far below the lattice spacing", "numba kernels run as plain Python (numba absent)"]
     with Workdir(PROP) as wd:
+        costparams.stage(chk, tier, wd)   # growth: the fixed-parameter domain and its broadcast (CostParams.tla)
         cases = []
         for label, cs, nsl, slices in STAGE[tier]:
             if slices is not None:
